@@ -1629,3 +1629,8 @@ mut("helper_closure_stalls_below_the_due_threshold", ["C09"], "TRIG-1|db::DB::ma
 benign_patch("refactor_s12_G_01", "benign/set12_G1_gc_live_set_for_each.diff", note="DB::remove_obsolete_files: the insert loop over get_live_files() written as `.into_iter().for_each(|f| { live.insert(f); })`")
 mut("gc_live_set_for_each_filtered", ["C11", "C03"], "GRD-5|db::DB::remove_obsolete_files|live-set", patch="gc_live_set_for_each_filtered.diff",
     note="the for_each form with a `.filter(|f| tables_in_use.contains(f))` in front: only tables that are ALSO being built count as live - tables of the current version are deleted")
+
+# ---- the iterator's sequence chosen by a combinator (GRD-3 follows it with deep_origins), and its wrong twin
+benign_patch("refactor_s12_G_02", "benign/set12_G2_new_iterator_snapshot_map_or_else.diff", note="DB::new_iterator: the read sequence chosen by `snapshot.as_ref().map_or_else(|| prev_sequence(), |s| s.sequence_number())`")
+mut("new_iterator_sequence_is_a_constant", ["C03", "C06"], "GRD-3|db::DB::new_iterator|iterator-sequence-provenance", patch="new_iterator_sequence_is_a_constant.diff",
+    note="without a snapshot the iterator reads at the largest sequence number instead of the one captured under the mutex: it sees writes made after its creation")
